@@ -1,5 +1,6 @@
 import Ruint.Model.Redc
 import Ruint.Gen.RedcConsts
+import Ruint.Gen.WordsRedcLoops
 /-! Driver for C11: evaluates the model (`Ruint.Redc.*` on limb lists, base `W`, thresholds from the generated
     constants) and the spec (`a·b·R⁻¹ mod m` on ℕ, `R = 2^(64·N)`, inverse by extended Euclid on ℤ). -/
 open Ruint Ruint.Redc Ruint.Gen.RedcConsts
@@ -41,7 +42,12 @@ def handle (args : List String) (_impl : String) : String × String :=
     let a := parseHex as; let b := parseHex bs; let m := parseHex ms; let inv := parseHex is
     match op with
     | "mulredc" =>
-        (outO (mulRedc W keepMul inv (toLimbs n a) (toLimbs n b) (toLimbs n m)), spec n a b m inv)
+        -- the result is computed by the function GENERATED from the source (`Props/C11.gen_mul_redc_eq`); the model
+        -- supplies the `debug_assert!` outcome
+        let la := toLimbs n a; let lb := toLimbs n b; let lm := toLimbs n m
+        let r := if n = 0 then mulRedc W keepMul inv la lb lm
+          else if (mulRedcCore W keepMul inv la lb lm).2 then some (Ruint.Gen.mul_redc (n + 1) n la lb lm inv) else none
+        (outO r, spec n a b m inv)
     | "umulredc" =>
         let bits := n; let l := nlimbs bits
         let sp := if bits = 0 then "0" else if decide (m < 2 ^ bits) then spec l a b m inv else "any"
